@@ -833,6 +833,9 @@ def _literal_ok(e):
     """what may stand in place of a loop variable: an object reference, a constant, a display of constants / references"""
     if isinstance(e, ast.Constant) or _ref_chain(e):
         return True
+    if isinstance(e, ast.JoinedStr):  # a name template over plain references: f"results_{estimand}"
+        return all(isinstance(p, ast.Constant) or (isinstance(p, ast.FormattedValue) and p.conversion == -1 and p.format_spec is None and _ref_chain(p.value))
+                   for p in e.values)
     if isinstance(e, ast.Dict):
         return all(k is not None and isinstance(k, ast.Constant) and _literal_ok(v) for k, v in zip(e.keys, e.values))
     if isinstance(e, (ast.Tuple, ast.List)):
@@ -864,9 +867,15 @@ def _iterations(st, stmts, i):
         elems = [ast.Tuple(elts=[k, v], ctx=ast.Load()) for k, v in zip(it.keys, it.values)] if how == "items" else (list(it.keys) if how == "keys" else list(it.values))
     elif isinstance(it, (ast.Tuple, ast.List)) and how == "seq":
         elems = list(it.elts)
-        # a loop over a literal list of plain constants stays a loop (nothing to resolve): only objects, displays and pairs are unrolled
-        if all(isinstance(e, ast.Constant) for e in elems):
-            return None
+        # a loop over a literal list of plain constants is unrolled when the constants build names (they occur inside an f-string, a
+        # concatenation or a subscript of the body); a loop that only compares or prints them stays a loop
+        if all(isinstance(e, ast.Constant) for e in elems) and elems:
+            v = st.target.id if isinstance(st.target, ast.Name) else None
+            builds = v is not None and all(isinstance(e.value, str) for e in elems) and any(
+                isinstance(n, (ast.JoinedStr, ast.BinOp)) and any(isinstance(m, ast.Name) and m.id == v for m in ast.walk(n))
+                for b_ in st.body for n in ast.walk(b_))
+            if not builds:
+                return None
     else:
         return None
     if not (1 <= len(elems) <= 6) or not all(_literal_ok(e) for e in elems):
@@ -905,6 +914,7 @@ def unroll_object_loops(trees):
                 names = set(its[0])
                 inner = [n for b in st.body for n in ast.walk(b)]
                 refs = [e for m in its for e in m.values() if _ref_chain(e)]
+                refs += [p.value for m in its for e in m.values() for j_ in ast.walk(e) if isinstance(j_, ast.JoinedStr) for p in j_.values if isinstance(p, ast.FormattedValue)]
                 bad = any(isinstance(n, (ast.Break, ast.Continue, ast.Return, ast.FunctionDef, ast.Lambda, ast.AsyncFunctionDef, ast.Global, ast.Nonlocal)) for n in inner) \
                     or any(isinstance(n, ast.Name) and n.id in names and not isinstance(n.ctx, ast.Load) for n in inner) \
                     or any(isinstance(n, ast.comprehension) and any(isinstance(m, ast.Name) and m.id in names for m in ast.walk(n.target)) for n in inner) \
